@@ -654,7 +654,11 @@ def run(chk):
         "shared/distinct/None tags, a definition registered twice; plus "
         "files sized around the flush thresholds with "
         "NUM_BUFFERED_RESULTS/QueueTransitBuffer.MAX patched to small "
-        "values and one real-constants file with > 10 010 results.  Each "
+        "values, time-ordered logs searched through a real file-level "
+        "SearchConstraintSearchSince that skips a prefix (line numbers "
+        "must restart at 1 at the first line searched; expected position "
+        "computed from the timestamps with plain datetime) and one "
+        "real-constants file with > 10 010 results.  Each "
         "case: real FileSearcher.run() vs Coq model vs Coq spec (evaluated "
         "by vm_compute on the tabulated re/decode oracles).  Non-trivial = "
         "some registered definition matches at least one line and misses "
@@ -678,6 +682,21 @@ def run(chk):
     wants = evaluate(chk, cases, 'c01')
     for case, want in list(zip(cases, wants))[:3]:
         chk.sample({'case': case, 'implementation': brief(want, 600)})
+    # line numbers count from the first line SEARCHED: a real file-level
+    # SearchConstraintSearchSince on time-ordered logs whose window starts at
+    # (or just before) one of the lines, so that the seek skips a prefix
+    import c07
+
+    def seek_nontrivial(case, tables, pos, want):
+        chk.dist('file-level-seek skipped=%s' % (
+            '0' if not pos else 'all' if pos >= len(tables) else '1+'))
+        return 0 < pos < len(tables) and want[0] > 0
+    gcases = [c07.gen_global_case(rng) for _ in range(80 if chk.quick
+                                                      else 800)]
+    done = c07.evaluate(chk, gcases, 'c01seek', nontrivial=seek_nontrivial)
+    for case, want in done[:1]:
+        chk.sample({'file_level_case': case,
+                    'implementation': brief(want, 600)})
     # real constants, > NUM_BUFFERED_RESULTS + MAX results
     import searchkit.task as T
     nbuf, mx = T.NUM_BUFFERED_RESULTS, T.QueueTransitBuffer.MAX
